@@ -40,6 +40,9 @@ ASSUMPTIONS = ['a binding whose own target is unknown never contains an unknown 
                'parsed before the target is judged; the property is silent)']
 KNOWN = ['f0', 'f1']
 LATE = 'late0'
+# a method of a class: both get registered together with LATE, and the method is
+# then renamed under its class
+LATE_METHOD = 'LateK.lmeth'
 UNKNOWN = ['ghost0', 'ghost1', 'pk.ghost2']
 DYN_MOD = 'vsim_c15.moda'
 
@@ -69,7 +72,7 @@ def gen(rng, tier):
     stmts = []
     for _ in range(rng.randint(2, 8 if tier == 'thorough' else 6)):
       r = rng.random()
-      target = rng.choice(KNOWN + KNOWN + UNKNOWN + [LATE])
+      target = rng.choice(KNOWN + KNOWN + UNKNOWN + [LATE, LATE_METHOD])
       known_target = target in KNOWN
       if r < 0.55:
         stmts.append({'k': 'bind', 'scope': rng.choice(['', '', 's']),
@@ -91,7 +94,7 @@ def gen(rng, tier):
                                             'vsim_mods.missing_sub']),
                       'alias': None})
     r = rng.random()
-    names = UNKNOWN + [LATE] + KNOWN
+    names = UNKNOWN + [LATE, LATE_METHOD] + KNOWN
     if r < 0.1:
       skip = {'t': 'bool', 'v': False}
     elif r < 0.45:
@@ -149,6 +152,14 @@ def run(case):
         {'name': name, 'kind': 'fn',
          'params': [{'n': p, 'k': 'def', 'd': 'dflt'} for p in 'ab']}, hook)
     return probes.register_probe({'name': name, 'module': 'mm'}, obj)
+
+  def register_late_class():
+    g = {'__name__': 'ginsim_probes'}
+    exec('class LateK:\n  def __init__(self, a="dflt", b="dflt"):\n    pass\n'  # pylint: disable=exec-used
+         '  def lmeth(self, a="dflt", b="dflt"):\n    return (a, b)\n', g)
+    cls = g['LateK']
+    cls.lmeth = gin.register(cls.lmeth)
+    gin.register(module='mm')(cls)
 
   def setup():
     fns = {n: register(n) for n in KNOWN}
@@ -270,7 +281,9 @@ def run(case):
   for pi, ps in enumerate(case['parses']):
     if ps['register_late_before'] and LATE not in known:
       fns[LATE] = register(LATE)
+      register_late_class()
       known.add(LATE)
+      known.add(LATE_METHOD)
       stats['late_registered'] += 1
     skip = _skip_value(ps['skip'])
     before_expected = copy.deepcopy(expected)
@@ -305,6 +318,18 @@ def run(case):
       expected.clear()
       expected.update(before_expected)
       break
+    if not exc:
+      try:
+        text_now = gin.config_str()
+        if any(s['k'] == 'import' and s['module'] != 'vsim_mods.alpha'
+               for s in ps['stmts']) and 'no_such_module_c15' in text_now:
+          v('C15.skipped_import_leaves_no_trace', [],
+            'the skipped import of a missing module is recorded in '
+            'config_str():\n%s' % text_now)
+      except Exception as e:  # pylint: disable=broad-except
+        v('C15.skipped_import_leaves_no_trace', [type(e).__name__],
+          '%s\nconfig_str() afterwards raised %s: %s' %
+          (what, type(e).__name__, probes.scrub(str(e))[:300]))
     got = store()
     want = expected_store()
     if got != want:
@@ -333,7 +358,9 @@ def run(case):
     for ps in case['parses']:
       if ps['register_late_before'] and LATE not in known2:
         register(LATE)
+        register_late_class()
         known2.add(LATE)
+        known2.add(LATE_METHOD)
       skip = _skip_value(ps['skip'])
       saved = (expected, placeholders)
       expected, placeholders = expected2, {}
